@@ -27,6 +27,21 @@ type vfStoreDoc struct {
 	Vec  []float32 `json:"vec,omitempty"`
 	Word string    `json:"word,omitempty"` // extra vocabulary word next to the unique token
 	N    int       `json:"n"`              // metadata {"n": N, "tag": "t<N%3>"} and unique token "tok<N>"
+	// the document is added WITHOUT this modality although the store has it: "" | vec | text | meta
+	// (only generated for stores that have all three, so that every document keeps two)
+	Lacks string `json:"lacks,omitempty"`
+}
+
+func (d *vfStoreDoc) hasVec(c *vfStoreConf) bool  { return c.VecKind != "none" && d.Lacks != "vec" }
+func (d *vfStoreDoc) hasText(c *vfStoreConf) bool { return c.HasText && d.Lacks != "text" }
+func (d *vfStoreDoc) hasMeta(c *vfStoreConf) bool { return c.HasMeta && d.Lacks != "meta" }
+
+// vfMaybeLacks makes one document in five lack one modality (stores with all three only).
+func vfMaybeLacks(rt *rapid.T, c *vfStoreConf, d *vfStoreDoc) *vfStoreDoc {
+	if c.VecKind != "none" && c.HasText && c.HasMeta && rapid.IntRange(0, 4).Draw(rt, "lacks_a_modality") == 0 {
+		d.Lacks = rapid.SampledFrom([]string{"vec", "text", "meta"}).Draw(rt, "lacks")
+	}
+	return d
 }
 
 type vfStoreOp struct {
@@ -131,7 +146,7 @@ func vfC09Gen(rt *rapid.T) vfC09Case {
 				return op
 			}
 			n++
-			return vfStoreOp{Op: "add", Doc: vfGenStoreDoc(rt, g, n, explicit)}
+			return vfStoreOp{Op: "add", Doc: vfMaybeLacks(rt, &c.Conf, vfGenStoreDoc(rt, g, n, explicit))}
 		})
 		c.Sessions = append(c.Sessions, vfListOf(rt, "session_ops", opGen, 0, 24))
 	}
@@ -203,14 +218,14 @@ func (d *vfStoreDoc) meta() map[string]interface{} {
 
 func vfStoreAdd(st *PersistentHybridIndex, c *vfStoreConf, d *vfStoreDoc) (uint32, error) {
 	var vec []float32
-	if c.VecKind != "none" {
+	if d.hasVec(c) {
 		vec = vfCloneF32(d.Vec)
 	}
 	text, meta := "", map[string]interface{}(nil)
-	if c.HasText {
+	if d.hasText(c) {
 		text = d.text()
 	}
-	if c.HasMeta {
+	if d.hasMeta(c) {
 		meta = d.meta()
 	}
 	if d.ID != 0 {
@@ -236,7 +251,8 @@ func vfStoreFind(st HybridSearchIndex, c *vfStoreConf, id uint32, d *vfStoreDoc)
 		}
 		return found
 	}
-	if c.VecKind != "none" {
+	byVec, byText, byMeta = !d.hasVec(c), !d.hasText(c), !d.hasMeta(c) // nothing to find where nothing was added
+	if d.hasVec(c) {
 		res, e := st.NewSearch().WithVector(vfCloneF32(d.Vec)).WithK(vfBigK).WithNProbes(1000).Execute()
 		if e != nil {
 			return false, false, false, all, fmt.Errorf("vector query: %w", e)
@@ -254,14 +270,14 @@ func vfStoreFind(st HybridSearchIndex, c *vfStoreConf, id uint32, d *vfStoreDoc)
 			}
 		}
 	}
-	if c.HasText {
+	if d.hasText(c) {
 		res, e := st.NewSearch().WithText(fmt.Sprintf("tok%d", d.N)).WithK(vfBigK).Execute()
 		if e != nil {
 			return false, false, false, all, fmt.Errorf("text query: %w", e)
 		}
 		byText = collect(res)
 	}
-	if c.HasMeta {
+	if d.hasMeta(c) {
 		res, e := st.NewSearch().WithMetadata(Eq("n", d.N)).WithK(vfBigK).Execute()
 		if e != nil {
 			return false, false, false, all, fmt.Errorf("metadata query: %w", e)
@@ -339,7 +355,7 @@ func vfCheckDurable(st HybridSearchIndex, c *vfStoreConf, durable map[uint32]*vf
 
 // vfStoreCensus: one query per modality that every document matches.
 func vfStoreCensus(st HybridSearchIndex, c *vfStoreConf, durable map[uint32]*vfStoreDoc, everAdded map[uint32]bool, when string) *vfViolation {
-	check := func(what string, res []HybridSearchResult, err error) *vfViolation {
+	check := func(what string, res []HybridSearchResult, err error, has func(d *vfStoreDoc) bool) *vfViolation {
 		if err != nil {
 			return vfFail("%s: %s census query: %v", when, what, err)
 		}
@@ -351,8 +367,8 @@ func vfStoreCensus(st HybridSearchIndex, c *vfStoreConf, durable map[uint32]*vfS
 			}
 		}
 		missing, first := 0, uint32(0)
-		for id := range durable {
-			if !got[id] {
+		for id, d := range durable {
+			if has(d) && !got[id] {
 				if missing == 0 || id < first {
 					first = id
 				}
@@ -368,19 +384,19 @@ func vfStoreCensus(st HybridSearchIndex, c *vfStoreConf, durable map[uint32]*vfS
 		q := make([]float32, c.Dim)
 		q[0] = 1
 		res, err := st.NewSearch().WithVector(q).WithK(vfBigK).WithNProbes(1000).Execute()
-		if v := check("vector", res, err); v != nil {
+		if v := check("vector", res, err, func(d *vfStoreDoc) bool { return d.hasVec(c) }); v != nil {
 			return v
 		}
 	}
 	if c.HasText {
 		res, err := st.NewSearch().WithText("common").WithK(vfBigK).Execute()
-		if v := check("text", res, err); v != nil {
+		if v := check("text", res, err, func(d *vfStoreDoc) bool { return d.hasText(c) }); v != nil {
 			return v
 		}
 	}
 	if c.HasMeta {
 		res, err := st.NewSearch().WithMetadata(Exists("n")).WithK(vfBigK).Execute()
-		if v := check("metadata", res, err); v != nil {
+		if v := check("metadata", res, err, func(d *vfStoreDoc) bool { return d.hasMeta(c) }); v != nil {
 			return v
 		}
 	}
